@@ -884,6 +884,12 @@ func (c *Client) traces(ctx context.Context, url string, bm blockmap, start, lim
 		if len(res.Result) == 0 {
 			return fmt.Errorf("no rpc error but empty result")
 		}
+		for j := range res.Result {
+			if res.Result[j].BlockNum != start+i {
+				const tag = "trace_block returned a trace of block %d for block %d"
+				return fmt.Errorf(tag, res.Result[j].BlockNum, start+i)
+			}
+		}
 		block, ok := bm[res.Result[0].BlockNum]
 		if !ok {
 			return fmt.Errorf("missing block in block map")
